@@ -197,9 +197,59 @@ pub fn check_c05(ctx: &Ctx, known: &KnownFindings) -> Report {
 
 /// Messages aimed at the quantifier of C06.
 pub fn gen_compress_message(src: &mut Src) -> (Message, &'static str) {
-    let fam = src.weighted(&[6, 3, 3, 2, 2, 2]);
+    let fam = src.weighted(&[6, 3, 3, 2, 2, 2, 2]);
     if fam == 0 {
         return (gens::gen_message(src, &GenOpts::default()), "generic");
+    }
+    if fam == 6 {
+        // the suffix table has wrapped (32..50 names of one length seen) when the output passes offset
+        // 16384; behind it new names of the very same length appear, each several times: a name that
+        // cannot be stored (no pointer reaches it) must not disturb the entry whose slot it would take
+        let k1 = src.range(30, 50);
+        let k2 = src.range(1, 6);
+        let two = src.chance(100);
+        let nm = |c: u8, i: usize| -> Name {
+            let l = format!("{}{:02}", c as char, i).into_bytes();
+            if two {
+                Name(vec![l, b"zz".to_vec()])
+            } else {
+                Name(vec![l])
+            }
+        };
+        let a_rec = |o: Name, i: usize| Record { owner: o, rtype: T_A, class: 1, ttl: i as u32, rdata: Rdata::A([7, 7, 7, i as u8]) };
+        let mut m = Message { id: src.u16(), flags: 0x8180, qd: vec![Question { name: nm(b'a', 0), qtype: 1, qclass: 1 }], ..Default::default() };
+        for i in 1..=k1 {
+            m.an.push(a_rec(nm(b'a', i), i));
+        }
+        let before = 12 + m.qd[0].name.wire_len() + 4 + m.an.iter().map(|r| r.to_wire().len()).sum::<usize>();
+        // root-owned TXT fillers up to (about) offset 16384; sometimes exactly
+        let mut need = 16384usize.saturating_sub(before) + if src.chance(128) { 0 } else { src.range(0, 600) };
+        while need > 0 {
+            let d = need.saturating_sub(11).min(4000);
+            m.an.push(Record { owner: Name::root(), rtype: T_TXT, class: 1, ttl: 2, rdata: Rdata::Opaque(vec![0x41; d]) });
+            need = need.saturating_sub(d + 11);
+        }
+        for j in 0..k2 {
+            let copies = src.range(2, 3);
+            for c in 0..copies {
+                let r = if c == 1 && src.chance(100) {
+                    Record { owner: nm(b'a', 1 + src.below(k1)), rtype: T_NS, class: 1, ttl: 9, rdata: Rdata::Name1(nm(b'b', j)) }
+                } else {
+                    a_rec(nm(b'b', j), 100 + j)
+                };
+                if src.chance(200) {
+                    m.an.push(r);
+                } else {
+                    m.ar.push(r);
+                }
+            }
+        }
+        // and the old names once more
+        for _ in 0..src.range(0, 4) {
+            let i = 1 + src.below(k1);
+            m.ar.push(a_rec(nm(b'a', i), 200));
+        }
+        return (m, "table-wrapped-then-beyond-16383");
     }
     let qr = true;
     let mut m = Message { id: src.u16(), flags: 0x8180, ..Default::default() };
@@ -482,7 +532,7 @@ pub fn c06_regressions() -> Vec<(&'static str, Message)> {
 pub fn check_c06(ctx: &Ctx, known: &KnownFindings) -> Report {
     let mut rep = Report::new("C06");
     let ks = known_sigs(known, "C06");
-    rep.rule = "accepted pointer-free packets: all-literal encodings of generated messages (generic + families: suffix nesting up to depth 40, 20-200 distinct suffixes, suffixes of 126..129 bytes, mixed-case duplicates, names beyond offset 16383, OPT anywhere, every name-bearing rdata type). Oracle: compress Ok; output accepted (parser and reference); len(out) <= len(in); header equal; decoded message equal up to name case with the question name byte-identical; every emitted pointer is backward and the name decoded from its target equals (case-insensitively) the suffix it replaces; decode(uncompress(out)) equals the input up to case. Non-trivial: output holds >= 2 pointers (a pointer emitted after an earlier name was shortened); distinct = hash of input.".into();
+    rep.rule = "accepted pointer-free packets: all-literal encodings of generated messages (generic + families: suffix nesting up to depth 40, 20-200 distinct suffixes, suffixes of 126..129 bytes, mixed-case duplicates, names beyond offset 16383, 30-50 names of one length before offset 16384 and new names of that length behind it, OPT anywhere, every name-bearing rdata type). Oracle: compress Ok; output accepted (parser and reference); len(out) <= len(in); header equal; decoded message equal up to name case with the question name byte-identical; every emitted pointer is backward and the name decoded from its target equals (case-insensitively) the suffix it replaces; decode(uncompress(out)) equals the input up to case. Non-trivial: output holds >= 2 pointers (a pointer emitted after an earlier name was shortened); distinct = hash of input.".into();
     rep.assumptions = vec!["domain = packets accepted by both parser and reference, containing no pointer".into()];
     for (name, m) in c06_regressions() {
         let r = catch(|| -> PResult {
@@ -503,6 +553,7 @@ pub fn check_c06(ctx: &Ctx, known: &KnownFindings) -> Report {
         "family:long-suffix",
         "family:mixed-case",
         "family:beyond-16383",
+        "family:table-wrapped-then-beyond-16383",
         "distinct-suffixes>32",
         "suffix>127",
         "name-beyond-16383",
